@@ -42,6 +42,9 @@ CHECKS = {
  "C16": ("operation-history search (E2, differential): every define/load/pop history up to depth d over a 15-command alphabet on a fresh real interpreter; after every command, outcome and all query answers are compared with a fresh interpreter that loads only the live fragments",
          "bounded-exhaustive: every command history up to the depth bound is executed on the real interpreter; the reference is the same implementation started fresh on the live fragments implied by the documented stack discipline, so no expected values are hand-written",
          "definitions are issued as Loop issues them through a 6-line method added to package interpreter by go build -overlay (mc/seam/interp_hook.go); the stack discipline (load pops interactive definitions first) is taken from the documentation", "4 C16"),
+ "C17": ("small-scope enumeration in killable workers (E1): 21 diverging/converging program shapes and their pairs x seeds x every limit in {1..12,16,32,100} x store kinds, real engine with WithCreatedFactLimit compared with a capped reference evaluation",
+         "bounded-exhaustive: every (program, seed, limit, store) in scope is run in a worker process (ulimit -v, 60 s deadline, re-run twice before 'did not return' is believed): returns; growth bounded; nil error => complete model; infinite model => error",
+         "convergence decided by the reference evaluator with caps; growth bound instantiated as 4*(L+1)*(rules+1)+8; errors on converging programs (limit or join width exceeded) are correct behaviour", "4 C17"),
 }
 NOT_APPLICABLE = {
 }
